@@ -13,6 +13,10 @@ CONSTANTS
   ShareOnCopy = TRUE
   CloneBeforeAdd = TRUE
   RebindOnLarge = FALSE
+  Faults <- NoFaults
+  MaxFaults = 0
+  DeferUnlock = TRUE
+  StickyError = TRUE
   MaxH = 5
   MaxLogs = 1
   MaxGroups = 1
